@@ -119,6 +119,52 @@ SHAPES = {
     'fan-3':       [('A', ('paths', [1]), []), ('B', ('hash', [2]), []), ('C', ('paths', [3]), [('D', ('paths', [4]), [])])],
 }
 
+def find_target_obligations(R, I, cases):
+    """Targets::find_target from MIR on the given (shape, name-needs-resolution) cases; the caller has installed models_for(I)"""
+    fn = None
+    for n, fs in I.funcs.items():
+        if n.endswith('>::find_target') and 'schema/mod.rs' in n: fn = fs[0]
+    if fn is None: raise Stuck('Targets::find_target not found')
+    for sh, resolves in cases:
+        tree = mk_tree(SHAPES[sh])
+        st = State(); st.env['fs'] = {}
+        nid = z3.BitVec('name', 8)
+        top = st.alloc(build_targets(st, tree, [nid]))
+        name = st.alloc(target_name(nid, resolves))
+        sh = sh + ('/name-needs-resolution' if resolves else '/plain-name')
+        I.push_call(st, fn, [Ref(top), Ref(name)], None, None)
+        done = []; I.run(st, done.append)
+        R.check_interp_clean(I, f'find_target[{sh}]')
+        rf, rw = ref_find(tree, nid)
+        def dec(m, sh=sh, tree=tree, nid=nid):
+            ev = lambda t: m.eval(t, model_completion=True)
+            out = {'kind': 'find_target', 'shape': sh, 'lists': {}, 'matches': {}}
+            for nd in all_nodes(tree):
+                out['lists'][nd.name] = bool(z3.is_true(ev(Has(IDV(nd.rid), nid))))
+                if nd.pathset:
+                    kind, ids = nd.pathset
+                    out['matches'][nd.name] = [bool(z3.is_true(ev((Glob if kind == 'paths' else HashP)(IDV(i), IDV(0), nid)))) for i in ids]
+            return out
+        for s in done:
+            R.paths += 1
+            r = s.result
+            used_raw = [e for e in s.events if e[0] in ('glob', 'hash-of') and e[1] != 0]
+            R.obligation(f'find_target[{sh}]: patterns and hash prefixes are applied to the RESOLVED name (hash = SHA-256)', s.pc,
+                         z3.BoolVal(not used_raw and all(e[2] == 'SHA256' for e in s.events if e[0] == 'hash-of')), decode=dec, group='matches-resolved-name')
+            if r.discr == 0:
+                t = I.deref_load(s, r.fields[('Ok', 0)])
+                if not (isinstance(t, Obj) and 'rid' in t.d and 'nid' in t.d):
+                    # the entry returned was not taken from a role's own map through the modelled lookups (calls without a model on this path)
+                    R.obligation(f'find_target[{sh}]: the entry served is the first one in pre-order whose every delegation on the chain matches the name', s.pc,
+                                 z3.BoolVal(False), decode=dec, group='preorder-pruned', tainted=['entry obtained through unmodelled calls'])
+                    continue
+                R.obligation(f'find_target[{sh}]: the entry served is the first one in pre-order whose every delegation on the chain matches the name', s.pc,
+                             z3.And(rf, t.d['rid'] == rw, t.d['nid'] == nid), decode=dec, group='preorder-pruned')
+            else:
+                R.obligation(f'find_target[{sh}]: "not found" only if no authorised chain reaches an entry', s.pc, z3.Not(rf), decode=dec, group='not-found-justified')
+        R.reach_any(f'find_target[{sh}]: entry served from the deepest role', [s.pc for s in done if s.result.discr == 0], rw == IDV(max(n.rid for n in all_nodes(tree))))
+        R.samples.append({'shape': sh, 'paths': len(done)})
+
 def check(R, tier):
     I = R.interp('tough'); install_world(I)
     shapes = ['flat-2', 'nested', 'hash-nested'] if tier == 'quick' else list(SHAPES)
@@ -128,49 +174,7 @@ def check(R, tier):
                       'HashMap::get finds an entry iff the role lists that TargetName', 'Targets::targets_iter yields every entry of every loaded role (validate harness)']
     saved = list(I.models); I.models[:0] = models_for(I)
     try:
-        fn = None
-        for n, fs in I.funcs.items():
-            if n.endswith('>::find_target') and 'schema/mod.rs' in n: fn = fs[0]
-        if fn is None: raise Stuck('Targets::find_target not found')
-        for sh, resolves in [(s_, r_) for s_ in shapes for r_ in (True, False)]:
-            tree = mk_tree(SHAPES[sh])
-            st = State(); st.env['fs'] = {}
-            nid = z3.BitVec('name', 8)
-            top = st.alloc(build_targets(st, tree, [nid]))
-            name = st.alloc(target_name(nid, resolves))
-            sh = sh + ('/name-needs-resolution' if resolves else '/plain-name')
-            I.push_call(st, fn, [Ref(top), Ref(name)], None, None)
-            done = []; I.run(st, done.append)
-            R.check_interp_clean(I, f'find_target[{sh}]')
-            rf, rw = ref_find(tree, nid)
-            def dec(m, sh=sh, tree=tree, nid=nid):
-                ev = lambda t: m.eval(t, model_completion=True)
-                out = {'kind': 'find_target', 'shape': sh, 'lists': {}, 'matches': {}}
-                for nd in all_nodes(tree):
-                    out['lists'][nd.name] = bool(z3.is_true(ev(Has(IDV(nd.rid), nid))))
-                    if nd.pathset:
-                        kind, ids = nd.pathset
-                        out['matches'][nd.name] = [bool(z3.is_true(ev((Glob if kind == 'paths' else HashP)(IDV(i), IDV(0), nid)))) for i in ids]
-                return out
-            for s in done:
-                R.paths += 1
-                r = s.result
-                used_raw = [e for e in s.events if e[0] in ('glob', 'hash-of') and e[1] != 0]
-                R.obligation(f'find_target[{sh}]: patterns and hash prefixes are applied to the RESOLVED name (hash = SHA-256)', s.pc,
-                             z3.BoolVal(not used_raw and all(e[2] == 'SHA256' for e in s.events if e[0] == 'hash-of')), decode=dec, group='matches-resolved-name')
-                if r.discr == 0:
-                    t = I.deref_load(s, r.fields[('Ok', 0)])
-                    if not (isinstance(t, Obj) and 'rid' in t.d and 'nid' in t.d):
-                        # the entry returned was not taken from a role's own map through the modelled lookups (calls without a model on this path)
-                        R.obligation(f'find_target[{sh}]: the entry served is the first one in pre-order whose every delegation on the chain matches the name', s.pc,
-                                     z3.BoolVal(False), decode=dec, group='preorder-pruned', tainted=['entry obtained through unmodelled calls'])
-                        continue
-                    R.obligation(f'find_target[{sh}]: the entry served is the first one in pre-order whose every delegation on the chain matches the name', s.pc,
-                                 z3.And(rf, t.d['rid'] == rw, t.d['nid'] == nid), decode=dec, group='preorder-pruned')
-                else:
-                    R.obligation(f'find_target[{sh}]: "not found" only if no authorised chain reaches an entry', s.pc, z3.Not(rf), decode=dec, group='not-found-justified')
-            R.reach_any(f'find_target[{sh}]: entry served from the deepest role', [s.pc for s in done if s.result.discr == 0], rw == IDV(max(n.rid for n in all_nodes(tree))))
-            R.samples.append({'shape': sh, 'paths': len(done)})
+        find_target_obligations(R, I, [(s_, r_) for s_ in shapes for r_ in (True, False)])
         # ---- validate: every listed (role, name) pair must be reachable; two names
         vfn = None
         for n, fs in I.funcs.items():
